@@ -1555,6 +1555,32 @@ fn kind_code(k: &str) -> u64 {
         _ => 9,
     }
 }
+/// a request as the scripted provider recorded it: authorization, custom headers (sorted), model, parallel flag
+fn enc_recorded(o: &mut Vec<u64>, req: Option<&Recorded>) {
+    match req {
+        None => o.push(0),
+        Some(req) => {
+            o.push(1);
+            let auth: Vec<&(String, String)> = req.headers.iter().filter(|(k, _)| k == "authorization").collect();
+            enc_ostr(o, auth.first().map(|(_, v)| v.as_str()));
+            let mut custom: Vec<(String, String)> = req
+                .headers
+                .iter()
+                .filter(|(k, _)| !matches!(k.as_str(), "authorization" | "content-type" | "content-length" | "accept" | "host" | "user-agent" | "accept-encoding" | "connection" | "transfer-encoding"))
+                .cloned()
+                .collect();
+            custom.sort();
+            o.push(custom.len() as u64);
+            for (k, v) in &custom {
+                enc_str(o, k);
+                enc_str(o, v);
+            }
+            let b = req.json();
+            enc_ostr(o, b["model"].as_str());
+            enc_bool(o, b["parallel_tool_calls"].as_bool().unwrap_or(false));
+        }
+    }
+}
 /// what the implementation showed, flattened (mirrors `model_obs` in Model/SecretFlow.v)
 fn observe(r: &RunOut) -> Vec<u64> {
     let mut o = vec![];
@@ -1620,35 +1646,18 @@ fn observe(r: &RunOut) -> Vec<u64> {
             let pre = format!("{k}=");
             o.push(out.lines().any(|l| l.starts_with(&pre)) as u64);
         }
+        // when the probe is a provider-driven run: the request that opened it, as the provider recorded it (the key and the
+        // headers of the configuration AFTER the edit, nothing of the one before)
+        if r.sc.phase2.as_ref().map(|p| p.probe == "provider-bash").unwrap_or(false) {
+            enc_recorded(&mut o, if r.recorded.len() >= 2 { r.recorded.get(r.recorded.len() - 2) } else { None });
+        }
         return o;
     }
     if r.sc.doctor_only {
         return o;
     }
     // 2. first request as recorded by the provider (none when the endpoint is dead / no provider configured)
-    match r.recorded.first() {
-        None => o.push(0),
-        Some(req) => {
-            o.push(1);
-            let auth: Vec<&(String, String)> = req.headers.iter().filter(|(k, _)| k == "authorization").collect();
-            enc_ostr(&mut o, auth.first().map(|(_, v)| v.as_str()));
-            let mut custom: Vec<(String, String)> = req
-                .headers
-                .iter()
-                .filter(|(k, _)| !matches!(k.as_str(), "authorization" | "content-type" | "content-length" | "accept" | "host" | "user-agent" | "accept-encoding" | "connection" | "transfer-encoding"))
-                .cloned()
-                .collect();
-            custom.sort();
-            o.push(custom.len() as u64);
-            for (k, v) in &custom {
-                enc_str(&mut o, k);
-                enc_str(&mut o, v);
-            }
-            let b = req.json();
-            enc_ostr(&mut o, b["model"].as_str());
-            enc_bool(&mut o, b["parallel_tool_calls"].as_bool().unwrap_or(false));
-        }
-    }
+    enc_recorded(&mut o, r.recorded.first());
     // 3. config-derived fields of the session frames
     let mut reqs = vec![];
     let mut ended = None;
@@ -1798,9 +1807,10 @@ fn coq_case(c: &Scenario, obs: &[u64], m: &[(&str, &str)]) -> String {
         None => "mkOvr None None None None None".to_string(),
         Some(o) => format!("mkOvr {} {} {} {} {}", coq_ostr(&o.endpoint), coq_ostr(&o.model), coq_obool(&o.stateless), coq_obool(&o.parallel), coq_ostr(&o.followup)),
     };
-    // 98 / 97: multi-step probe with / without the edited configuration loaded before the subprocess is spawned
+    // 98 / 97: multi-step probe with / without the edited configuration loaded before the subprocess is spawned; 96 = 98 with
+    // the probe being a provider-driven run (its opening request is compared too)
     let outcome = match &c.phase2 {
-        Some(p2) => if p2.load == "none" { 97 } else { 98 },
+        Some(p2) => if p2.load == "none" { 97 } else if p2.probe == "provider-bash" { 96 } else { 98 },
         None => if c.doctor_only { 99 } else { c.outcome as u64 },
     };
     let cli = c.cli_flags.as_ref().map(|f| f.coq()).unwrap_or_else(|| "None".into());
@@ -1919,7 +1929,7 @@ fn key_template(rng: &mut Rng, shape: u8) -> String {
         },
         1 => ["{{K}}", "ACME_PROD_{{K}}", "{{K}}_{{R}}", "_{{K}}"][rng.below(4) as usize].to_string(),
         3 => ["sk-{{K}}", "sk-proj-{{K}}-{{R}}", "sk-ant-api03-{{K}}"][rng.below(3) as usize].to_string(),
-        4 => ["{{K}}+\"q\\=/{{R}}", "\"{{K}}\\", "{{K}}\u{e9}\u{2713}{{R}}", "'{{K}}' \\\"{{R}}", "\u{feff}{{K}}"][rng.below(5) as usize].to_string(),
+        4 => ["{{K}}+\"q\\=/{{R}}", "\"{{K}}\\", "{{K}}\u{e9}\u{2713}{{R}}", "'{{K}}' \\\"{{R}}", "\u{feff}{{K}}", "sk-\u{2713}\u{2713}\u{2713}{{K}}\u{2713}\u{2713}\u{2713}"][rng.below(6) as usize].to_string(),
         6 => ["{{K}} ", " {{K}}", "{{K}}\t", "{{K}}\r", "{{K}}\n", "{{K}}\r\n"][rng.below(6) as usize].to_string(),
         _ => "{{K}}".to_string(),
     }
@@ -2483,7 +2493,9 @@ fn gen_multistep(rng: &mut Rng, j: u64, n_combos: u64) -> Scenario {
             p2_layers.push(full_b);
         }
         1 => {
-            sc.layers.push(Layer { slot, providers: vec![with_key(Some(KeySpec::Inline("public-decoy-key".into())), vec![])], model: Some(route.clone()), ..Default::default() });
+            // the inline key that the edit rotates OUT is a secret too (nothing may remember it: a "configuration changed"
+            // notice, a cached resolution)
+            sc.layers.push(Layer { slot, providers: vec![with_key(Some(KeySpec::Inline(if control { "public-decoy-key".into() } else { format!("old-{key}") })), vec![("X-Old".into(), "old {{H}}".into())])], model: Some(route.clone()), ..Default::default() });
             p2_layers.push(full_b);
         }
         2 => {
@@ -2819,6 +2831,14 @@ fn main() {
                 sc.cli = false;
                 sc.real_authority = true;
             }
+        }
+    }
+    // verbose logging asked for in the authority's environment (nothing in rip logs today: no effect; a logging layer
+    // added later would print third-party Debug output - hyper / reqwest trace lines hold custom header values)
+    for (i, sc) in scenarios.iter_mut().enumerate() {
+        if i % 4 == 3 && i >= n_fixed {
+            sc.env.push(("RUST_LOG".into(), ["trace", "debug", "ripd=trace,reqwest=trace,hyper=trace"][(i / 4) % 3].into()));
+            sc.env.push(("RUST_BACKTRACE".into(), "1".into()));
         }
     }
     let have_ripd = ripd_bin().is_some();
